@@ -8,6 +8,7 @@ CARGO_TARGET_DIR=/verif/engine/target-dbg cargo build --offline --profile reldbg
 for be in ibig dashu malachite num_bigint; do
   CARGO_TARGET_DIR=/verif/engine/target-be-$be cargo build --offline --release --no-default-features --features "mv_rayon be_$be"
 done
+(cd /verif/probe_c14 && CARGO_TARGET_DIR=/verif/engine/target-probe cargo build --offline --release)
 cd /verif/sched
 CARGO_TARGET_DIR=/verif/sched/target-seq cargo build --offline --release
 CARGO_TARGET_DIR=/verif/sched/target-par cargo build --offline --release --features par
